@@ -703,7 +703,22 @@ func c06Pluck(c *Ctx) {
 	}
 	result := p.Vals[0]
 	if !freshEmptyContainer(c, result, false) {
-		ob.Fail("the result does not start as an empty object (%s)", c.termStr(result))
+		// built another way (pairs collected and handed to the constructor): folded on the spine model for 0..3 requested keys
+		bad, undec := c.foldBuild(v, p, nil, keys, false, false, func(k int) ([]string, map[string]string) {
+			m := map[string]string{}
+			for j := 0; j < k; j++ {
+				m["$s["+itoa(j)+"]"] = "pv(Get($s[" + itoa(j) + "]))"
+			}
+			return nil, m
+		})
+		switch {
+		case undec != "":
+			ob.Fail("the result does not start as an empty object (%s); folded on the spine model: %s", c.termStr(result), undec)
+		case bad != "":
+			ob.Fail("Pluck does not build {key: self.Get(key)} for exactly the requested keys: %s", bad)
+		default:
+			ob.Ok("folded on the spine model for 0..3 requested keys: the result is a fresh object holding self.Get(key) under every requested key, unconditionally (absent key => Get's panic)")
+		}
 		return
 	}
 	for _, s := range p.Effects() {
